@@ -1,7 +1,9 @@
 package harness
 
 import (
+	"archive/tar"
 	"bytes"
+	"compress/gzip"
 	"context"
 	"encoding/json"
 	"errors"
@@ -29,6 +31,9 @@ type ReaderSpec struct {
 	FailAt   int   `json:"fail_at"`          // offset at which Read returns an error (-1 = never)
 	Truncate int   `json:"truncate"`         // EOF after this many bytes (-1 = no truncation)
 	Extra    int   `json:"extra,omitempty"`  // trailing bytes appended after the content
+	// WithData: the final bytes arrive together with io.EOF (or with the injected
+	// error) in one Read call, as io.Reader permits
+	WithData bool `json:"with_data,omitempty"`
 }
 
 // PusherSpec: one Push.
@@ -39,6 +44,9 @@ type PusherSpec struct {
 	Reader  ReaderSpec `json:"reader"`
 	// ForDigestOf: use the descriptor of pusher #k's content (concurrent good/bad pushes under one digest); -1 = own
 	ForDigestOf int `json:"for_digest_of"`
+	// Unpack (file store, named): the bytes are a gzipped tar of a small directory and the
+	// descriptor asks the store to unpack it
+	Unpack string `json:"unpack,omitempty"` // directory name ("" = an ordinary file)
 }
 
 type PushParams struct {
@@ -112,6 +120,7 @@ func (p *pushProp) Gen(r *Rand, tier string, idx int) any {
 		case 2:
 			ps.Reader.Extra = r.Range(1, 5)
 		}
+		ps.Reader.WithData = r.Chance(0.3)
 		if r.Chance(0.5) {
 			k := r.Range(1, 4)
 			for j := 0; j < k; j++ {
@@ -152,7 +161,13 @@ func (p *pushProp) Gen(r *Rand, tier string, idx int) any {
 	if pp.Target == "limited" && r.Chance(0.5) {
 		pp.Limit = int64(pick(r, []int{0, 1, 9, 10, 16, 5000}))
 	}
-	if pp.Target == "file-named" && r.Chance(0.5) {
+	if pp.Target == "file-named" && r.Chance(0.3) {
+		for i := range pp.Pushers {
+			if pp.Pushers[i].ForDigestOf < 0 && pp.Pushers[i].Repeat <= 0 && r.Chance(0.7) {
+				pp.Pushers[i].Unpack = fmt.Sprintf("dir%d", i)
+			}
+		}
+	} else if pp.Target == "file-named" && r.Chance(0.5) {
 		pp.SameName = true
 		if len(pp.Pushers) == 1 {
 			// a failing long push, then a valid shorter one
@@ -253,6 +268,15 @@ func (f *faultyReader) Read(p []byte) (int, error) {
 	}
 	copy(p, f.data[f.off:f.off+n])
 	f.off += n
+	if f.spec.WithData && n > 0 {
+		if f.spec.FailAt >= 0 && f.off >= f.spec.FailAt {
+			f.failed = true
+			return n, errReader
+		}
+		if f.off >= len(f.data) {
+			return n, io.EOF
+		}
+	}
 	return n, nil
 }
 
@@ -262,7 +286,28 @@ func (ps *PusherSpec) payload() []byte {
 	if rep <= 0 {
 		rep = 1
 	}
+	if ps.Unpack != "" {
+		return tarGzOf(ps.Unpack, ps.Content, rep)
+	}
 	return []byte(strings.Repeat(ps.Content, rep))
+}
+
+// tarGzOf builds, deterministically, the gzipped tar of a directory with two files.
+func tarGzOf(dir, content string, rep int) []byte {
+	var buf bytes.Buffer
+	gz := gzip.NewWriter(&buf)
+	tw := tar.NewWriter(gz)
+	for _, f := range []struct{ name, body string }{{dir + "/", ""}, {dir + "/a.txt", strings.Repeat(content, rep)}, {dir + "/sub/", ""}, {dir + "/sub/b.txt", "b:" + content}} {
+		if strings.HasSuffix(f.name, "/") {
+			tw.WriteHeader(&tar.Header{Name: f.name, Mode: 0o755, Typeflag: tar.TypeDir})
+			continue
+		}
+		tw.WriteHeader(&tar.Header{Name: f.name, Mode: 0o644, Size: int64(len(f.body)), Typeflag: tar.TypeReg})
+		tw.Write([]byte(f.body))
+	}
+	tw.Close()
+	gz.Close()
+	return buf.Bytes()
 }
 
 func (ps *PusherSpec) stream() (data []byte, errAt int) {
@@ -451,10 +496,14 @@ func (p *pushProp) run(rc *RunCtx, pp *PushParams, info *RunInfo) *Verdict {
 			if pp.SameName {
 				descs[i].Annotations = map[string]string{ocispec.AnnotationTitle: "shared.bin"}
 			}
+			if pp.Pushers[i].Unpack != "" {
+				descs[i].Annotations = map[string]string{ocispec.AnnotationTitle: pp.Pushers[i].Unpack, file.AnnotationUnpack: "true"}
+				info.Probes["push_with_unpack"]++
+			}
 		}
 		judge[i] = judgePush(descs[i], &pp.Pushers[i])
 		ps := &pp.Pushers[i]
-		if ps.Desc != "ok" || ps.Reader.FailAt >= 0 || ps.Reader.Truncate >= 0 || ps.Reader.Extra > 0 || len(ps.Reader.Chunks) > 0 {
+		if ps.Desc != "ok" || ps.Reader.FailAt >= 0 || ps.Reader.Truncate >= 0 || ps.Reader.Extra > 0 || len(ps.Reader.Chunks) > 0 || ps.Reader.WithData {
 			info.Nontrivial = true
 		}
 	}
@@ -664,7 +713,11 @@ func (p *pushProp) run(rc *RunCtx, pp *PushParams, info *RunInfo) *Verdict {
 			}
 			return violation("bad-push-accepted", sig, "%s: Push returned nil although the first Size bytes were not delivered or do not hash to the digest", what)
 		}
-		if errs[i] != nil && j.exact {
+		if errs[i] != nil && j.exact && ps.Unpack != "" && !bytes.Equal(j.expected, ps.payload()) {
+			// the named bytes are a prefix of the archive (or nothing): they match their
+			// descriptor but cannot be unpacked, so the store may refuse them
+			info.Probes["unpack_refused_incomplete_archive"]++
+		} else if errs[i] != nil && j.exact {
 			// refused although exact: fine only if somebody else stored the same descriptor
 			other := false
 			for k := range pp.Pushers {
